@@ -49,7 +49,7 @@ MIRRORED = [
     ('mitxgraders/helpers/validatorfuncs.py', 'is_callable_with_args'),
 ]
 REFUTED = ['C20_refusal_is_validation_error_refuted_LinearComparer', 'C20_refusal_is_validation_error_refuted_NumericalGrader',
-           'C20_refusal_is_validation_error_refuted_complex_number']
+           'C20_refusal_is_validation_error_refuted_complex_number', 'C20_rebuild_from_config_refuted_deleted_constant']
 TRUSTED = [
     'translator translate/schemas.py (Python ast -> schema terms; fail-closed; two try/except functions are mirrored by '
     'hand-written constructors and guarded by an AST hash)',
@@ -238,7 +238,7 @@ def gen_cases(ctx, rng):
     # random multi-option combinations
     n_multi = 700 if ctx['tier'] == 'quick' else 6000
     if ctx['escalate'] and ctx['tier'] == 'quick':
-        n_multi = 1400
+        n_multi = 1100
     names = sorted(T)
     for _ in range(n_multi):
         cname = rng.choice(names)
@@ -405,8 +405,12 @@ def check_case(case, res=None, witnesses=None):
         if table.is_grader:
             st3, obj3 = core.guarded(cls, conf)
             if st3 != 'ret':
+                uc = cfg.get('user_constants') if isinstance(cfg.get('user_constants'), dict) else {}
+                reused = sorted(k for k, v in uc.items() if v is None and
+                                (k in (cfg.get('variables') or []) or k in (cfg.get('numbered_vars') or [])))
                 witness('rebuild-refused', 'constructing the grader again from its own configuration raised %s: %s'
-                        % (type(obj3).__name__, str(obj3)[:160]))
+                        % (type(obj3).__name__, str(obj3)[:160]),
+                        condition='deleted-default-constant-reused' if reused else 'other', deleted_constants_reused=reused)
             elif not same(obj3, obj) or not same(obj3.config, conf):
                 witness('rebuild-differs', 'the grader rebuilt from its configuration is not equal to the original: %r vs %r'
                         % (obj3.config, conf))
@@ -532,7 +536,7 @@ def balanced_files(tag, header, agree_fn, case_type, terms, nshards):
 
 def run_correspondence(ctx, res, recs, w):
     quick = ctx['tier'] == 'quick'
-    cap = (2000 if not ctx['escalate'] else 4500) if quick else 40000
+    cap = (2000 if not ctx['escalate'] else 3500) if quick else 40000
     l1 = [r for r in recs['l1'] if r['cls'] in tr.PUBLIC and 'out' in r]
     res.distribution['validate_config_calls_recorded'] = len(recs['l1'])
     res.distribution['validate_config_calls_untranslated_class'] = len(recs['l1']) - len(l1)
@@ -586,7 +590,13 @@ def run_correspondence(ctx, res, recs, w):
             files.append((name, text))
             owner[name] = (level, rows, idx)
         res.programs += len(terms)
-    for name, rc, out in core.run_case_files(files):
+    results = core.run_case_files(files)
+    # a case file that did not evaluate is retried once (another build may have replaced a .vo under our feet)
+    retry = [(n, t) for (n, t) in files if any(r[0] == n and (r[1] != 0 or core.failing_indices(r[2]) is None) for r in results)]
+    if retry:
+        redo = {r[0]: r for r in core.run_case_files(retry)}
+        results = [redo.get(r[0], r) for r in results]
+    for name, rc, out in results:
         level, rows, idx = owner[name]
         failing = core.failing_indices(out) if rc == 0 else None
         if failing is None:
@@ -625,12 +635,16 @@ def replay(w):
 
 
 def classify_known(w, known):
-    """known findings are characterised by the raising call site and the triggering condition"""
-    if w.get('kind') != 'wrong-error-class' or w.get('exc_type') != 'TypeError':
-        return None
-    site = w.get('raise_site', '')
+    """A known finding is characterised by the call site that raises and the triggering condition:
+       * wrong-error-class: the exception type and the innermost raising frame (file:qualified function);
+       * rebuild-refused: the condition `deleted-default-constant-reused` (a default constant removed with None is
+         also declared as a variable / numbered variable)."""
     for e in known:
         kw = e.get('witness', {})
-        if kw.get('exc_type') == 'TypeError' and kw.get('raise_site') == site:
-            return e['id']
+        if w.get('kind') == 'wrong-error-class' and kw.get('kind', 'wrong-error-class') == 'wrong-error-class':
+            if kw.get('exc_type') == w.get('exc_type') and kw.get('raise_site') and kw.get('raise_site') == w.get('raise_site'):
+                return e['id']
+        if w.get('kind') == 'rebuild-refused' and kw.get('kind') == 'rebuild-refused':
+            if w.get('condition') == 'deleted-default-constant-reused' and kw.get('condition') == w.get('condition'):
+                return e['id']
     return None
